@@ -225,6 +225,7 @@ type c08Case struct {
 	Push       bool   `json:"push,omitempty"`        // trace: proxy 0 has a push callback; id-0 packets on its connections must reach it
 	Registry   bool   `json:"registry,omitempty"`    // trace: the proxies resolve their endpoint through a scripted registrar; CloseAt then means: the registrar lists another endpoint (second listener of the same peer) and the proxies refresh
 	CloseAt    int    `json:"close_at,omitempty"`    // trace: 1+round in which every adapter of the scenario's proxies is closed while that round's calls are outstanding (0 = never)
+	PatienceMs int    `json:"patience_ms,omitempty"` // set by the parent when it runs the case in a child: deadline of answered callers
 	Opts       bool   `json:"opts,omitempty"`        // trace: callers carry per-call options through the context (client timeout - the same value for all of them -, hash, dyeing key) and status / context maps
 	C0         int32  `json:"c0"`                    // trace, observed: the id counter when the scenario started (after positioning)
 	QueueMax   int    `json:"queue_max,omitempty"`   // trace: ObjQueueMax during the scenario (0 = default 100000): callers beyond it are rejected with 'invoke queue is full'
@@ -242,7 +243,18 @@ const c08Poison = 0xFFFFFFFF
 
 // c08Patience is the deadline of a caller that is going to be answered: far beyond anything a loaded machine needs (the
 // scripted server answers within milliseconds of having collected the round's requests).
-const c08Patience = 12 * time.Second
+const c08PatienceFull = 12 * time.Second
+
+// Once a scenario of the run has reported a failure the verdict is a violation anyway: the remaining scenarios still run and
+// report, but their answered callers wait 2 s instead of 12 s, so that a change that loses most replies is reported in
+// minutes, not in tens of minutes. On a tree without failures nothing changes. (Children get the value through the case.)
+var c08Patience = c08PatienceFull
+
+func c08NoteFailures(fs []Failure) {
+	if len(fs) > 0 {
+		c08Patience = 2 * time.Second
+	}
+}
 
 // c08OptTimeoutMs is the per-call client timeout (ms) that callers with options put into their context: the same value
 // for all of them, beyond the patience of any caller.
@@ -409,6 +421,9 @@ func init() {
 			fatal("c08-child: %v", err)
 		}
 		c08InChild = true
+		if c.PatienceMs > 0 {
+			c08Patience = time.Duration(c.PatienceMs) * time.Millisecond
+		}
 		c08InstallFilters(c.Filters)
 		fs := c08RunTrace(&c)
 		ob, _ := json.Marshal(c08ChildOut{Case: c, Fails: fs})
@@ -424,7 +439,9 @@ func c08RunChild(c *c08Case, dir string) []Failure {
 	c08ChildSeq++
 	in := filepath.Join(dir, fmt.Sprintf("c08-child-%d-in.json", c08ChildSeq))
 	out := filepath.Join(dir, fmt.Sprintf("c08-child-%d-out.json", c08ChildSeq))
+	c.PatienceMs = int(c08Patience / time.Millisecond)
 	b, _ := json.Marshal(c)
+	c.PatienceMs = 0
 	if err := os.WriteFile(in, b, 0o644); err != nil {
 		fatal("c08 child input: %v", err)
 	}
@@ -448,6 +465,7 @@ func c08RunChild(c *c08Case, dir string) []Failure {
 		return []Failure{{Sig: "child/scenario-process-failed", Desc: fmt.Sprintf("the child process running the scenario with client filters %q did not deliver a result: %v; output: %s", c.Filters, err, tail)}}
 	}
 	*c = res.Case
+	c.PatienceMs = 0
 	return res.Fails
 }
 
@@ -972,6 +990,34 @@ func c08RunTrace(c *c08Case) []Failure {
 			case "funk": // ids nobody registered
 				send(s.conn, s.id^0x40000000, c08Payload(c08Poison, uint32(k)), false)
 				send(s.conn, s.id^0x20000000, c08Payload(c08Poison, uint32(k)), false)
+				genuine()
+			case "falias":
+				// stray replies whose ids are the two's-complement aliases of this (outstanding) call's id at every narrower
+				// encoding width of the id field — id-+256 (byte), id-+65536 (short) —, its negation and bit complement: ids
+				// nobody waits for, in one write with the genuine reply behind them. A stray reply reaches nobody.
+				used := map[int32]bool{0: true}
+				for _, v := range reqs {
+					used[v.id] = true
+				}
+				followMu.Lock()
+				for _, v := range followSeen {
+					used[v.id] = true
+				}
+				followMu.Unlock()
+				for _, d := range []int64{-256, 256, -65536, 65536, -2 * int64(s.id), -2*int64(s.id) - 1} {
+					a := int64(s.id) + d
+					if a < -(1<<31) || a > 1<<31-1 || used[int32(a)] {
+						continue
+					}
+					if (d == 256 || d > 0 && d < 4096) && total > 60 { // could be drawn by a later call of this scenario
+						continue
+					}
+					if d > 0 && d <= 65536 && a-int64(s.id) < int64(4*total+64) {
+						continue
+					}
+					used[int32(a)] = true
+					send(s.conn, int32(a), c08Payload(c08Poison, uint32(k)), false)
+				}
 				genuine()
 			case "oneway": // right id, one-way packet type: dropped by Recv
 				send(s.conn, s.id, c08Payload(c08Poison, uint32(k)), true)
@@ -1500,6 +1546,7 @@ func c08RunBurst(c *c08Case) []Failure {
 		return ""
 	}
 	atomic.StoreInt32(&running, 1)
+	var gaveUp int32
 	var fs []Failure
 	seenSig := map[string]int{}
 	var fmu sync.Mutex
@@ -1525,8 +1572,12 @@ func c08RunBurst(c *c08Case) []Failure {
 			defer wg.Done()
 			defer atomic.AddInt32(&running, -1)
 			<-start
-			for i := 1; i <= c.Calls; i++ {
-				note(call(w, i))
+			for i := 1; i <= c.Calls && atomic.LoadInt32(&gaveUp) == 0; i++ {
+				bad := call(w, i)
+				note(bad)
+				if strings.HasPrefix(bad, "matching-reply-not-delivered") { // replies are being lost: no point in sitting out thousands of deadlines
+					atomic.StoreInt32(&gaveUp, 1)
+				}
 			}
 		}(w)
 	}
@@ -1787,7 +1838,7 @@ func c08Gen(tier string, rng *rand.Rand) []c08Case {
 			sizes = append(sizes, 1, 4, 4, 32, 32, 256, 8, 64, 128, 2, 16)
 		}
 	}
-	kinds := []string{"reply", "dup", "none", "late", "f0", "funk", "oneway", "fdone", "fcross", "ow", "ow", "fail", "noep", "cancel", "cancelD"}
+	kinds := []string{"reply", "dup", "none", "late", "f0", "funk", "oneway", "fdone", "fcross", "ow", "ow", "fail", "noep", "cancel", "cancelD", "falias"}
 	for si, n := range sizes {
 		c := c08Case{Kind: "trace", N: n, TimeoutMs: 150 + rng.Intn(200)}
 		// rounds on the same proxy and connection: replies to one round's calls (late, duplicated) arrive during the next
@@ -1882,6 +1933,34 @@ func c08Gen(tier string, rng *rand.Rand) []c08Case {
 			}
 		}
 		c.Class = fmt.Sprintf("trace-dupchain/n%d/p%d/g%d", n, c.Proxies, c.Procs)
+		cs = append(cs, c)
+	}
+	// the id counter positioned just below every encoding-width boundary of the id field (byte, short, and their negative
+	// counterparts), so that the round's ids straddle it; stray replies under the aliases of outstanding ids
+	nw := 4
+	if tier == "thorough" {
+		nw = 16
+	}
+	for i := 0; i < nw; i++ {
+		n := []int{8, 16, 4, 32}[(i/4)%4]
+		bound := []int64{127, 32767, 65535, -32769, 255, -129, 65407, 32639}[i%8]
+		c := c08Case{Kind: "trace", N: n, Rounds: 2, Proxies: 1 + (i/2)%2, TimeoutMs: 200, Follow: i%2 == 0, Pings: (i / 4) % 2}
+		c.SetID, c.Start = true, int32(bound-int64(rng.Intn(n)+1))
+		wk := []string{"falias", "falias", "reply", "dup", "falias", "none", "funk"}
+		for k := 0; k < n*c.Rounds; k++ {
+			a := wk[rng.Intn(len(wk))]
+			if k%n < 2 {
+				a = "falias"
+			}
+			c.Acts = append(c.Acts, a)
+		}
+		for r := 0; r < c.Rounds; r++ {
+			perm := rng.Perm(n)
+			for _, k := range perm {
+				c.Order = append(c.Order, r*n+k)
+			}
+		}
+		c.Class = fmt.Sprintf("trace-width/b%d/n%d/p%d", bound, n, c.Proxies)
 		cs = append(cs, c)
 	}
 	// replies in two pieces with a gap longer than the client's read timeout, embedding frames for calls still waiting
@@ -2049,7 +2128,7 @@ func init() {
 			ID: "C08", Require: "From TarsV Require Import Base.Hex Rpc.ReqId Conc.Pending Conc.C08Corr.", CaseType: "c08_case",
 			Mismatch: "failing_from c08_check",
 			Corr:     "C08Corr.c08_check (gen_seq = real genRequestID from a set counter; concurrent batches within the theorems' conclusions; maccepts = the recorded trace, per connection, is a good run of the product of pending-table machines with the observed outcomes, table snapshots and empty tables at the end; wrap witness = the theorem's prediction)",
-			Rule:     "genRequestID: counter set to 0/maxInt32/minInt32 +-4, 2^30, random, then 1-7 calls single-threaded (exact vs gen_seq); 2-32 threads x 4-33 calls straddling 0, maxInt32, minInt32 (non-zero, distinct, reachable window, in Coq); 4-32 threads x 20000-40000 calls (monitor: non-zero, distinct, no lost increment). Scripted raw TCP server: N in {1,2,4,8,16,32,64,128,256} concurrent callers spread over 1-2 ServantProxy objects (own adapter and connection each), 1-3 rounds on the same connections, per caller one of reply / three replies / no reply / reply in two pieces with a gap beyond the client read timeout whose payload embeds a poisoned frame for a waiting call / adapters closed while calls are outstanding (child process) / reply after the caller left / caller's context cancelled (plain, or under a distant deadline) while the request is in flight / forged id 0 / forged unknown ids / one-way typed packet with the right id / id of a completed call / right id on another connection / one-way call (echoed by the peer under its id) / call failing in doInvoke (refused endpoint); answered callers call again at once (follow-up); dup-chain scenarios (3x8 replies per call); client-filter scenarios in child processes (pass-through pre+post filters, client filter, middleware); ids of all requests received by the server non-zero and distinct; server handling order a random permutation per round; request ids positioned to cross 0, the wrap threshold, or be negative; GOMAXPROCS 1,2,4,16 in thorough; table snapshot while the round is outstanding. Burst: 16-64 callers in lock step on one adapter, ~8000 calls, every batch of replies in one write (monitor: own id and payload). Thorough: full-cycle wrap witness (2^31 allocations). class = (kind, counter zone, threads | N, rounds, proxies, GOMAXPROCS, id zone, set of acts)",
+			Rule:     "genRequestID: counter set to 0/maxInt32/minInt32 +-4, 2^30, random, then 1-7 calls single-threaded (exact vs gen_seq); 2-32 threads x 4-33 calls straddling 0, maxInt32, minInt32 (non-zero, distinct, reachable window, in Coq); 4-32 threads x 20000-40000 calls (monitor: non-zero, distinct, no lost increment). Scripted raw TCP server: N in {1,2,4,8,16,32,64,128,256} concurrent callers spread over 1-2 ServantProxy objects (own adapter and connection each), 1-3 rounds on the same connections, per caller one of reply / three replies / no reply / reply in two pieces with a gap beyond the client read timeout whose payload embeds a poisoned frame for a waiting call / adapters closed while calls are outstanding (child process) / reply after the caller left / caller's context cancelled (plain, or under a distant deadline) while the request is in flight / forged id 0 / forged unknown ids / stray replies under the two's-complement aliases of the caller's id (id-+256, id-+65536, -id, ~id) with the id counter positioned across 127, 255, 32767, 65535, -129, -32769 / one-way typed packet with the right id / id of a completed call / right id on another connection / one-way call (echoed by the peer under its id) / call failing in doInvoke (refused endpoint); answered callers call again at once (follow-up); dup-chain scenarios (3x8 replies per call); client-filter scenarios in child processes (pass-through pre+post filters, client filter, middleware); ids of all requests received by the server non-zero and distinct; server handling order a random permutation per round; request ids positioned to cross 0, the wrap threshold, or be negative; GOMAXPROCS 1,2,4,16 in thorough; table snapshot while the round is outstanding. Burst: 16-64 callers in lock step on one adapter, ~8000 calls, every batch of replies in one write (monitor: own id and payload). Thorough: full-cycle wrap witness (2^31 allocations). class = (kind, counter zone, threads | N, rounds, proxies, GOMAXPROCS, id zone, set of acts)",
 			Shard:    4,
 			Workers:  1,
 			Gen:      c08Gen,
@@ -2058,6 +2137,9 @@ func init() {
 			RunAll: func(cs []c08Case) [][]Failure {
 				fails := make([][]Failure, len(cs))
 				for i := range cs { // the id counter is process-global: one case at a time
+					if i > 0 {
+						c08NoteFailures(fails[i-1])
+					}
 					if c08GenStuck {
 						cs[i].Skipped = true
 						continue
